@@ -330,7 +330,8 @@ def complete_writes(ctx, rule='C02.complete-writes', traces=None):
                         if rv['k'] in ('ref', 'rawptr', 'discr'):
                             pls.append(rv['p'])
                         if any(pl is not None and pl['l'] in derived for pl in pls):
-                            if rv['k'] == 'bin' and fn.locals[[pl for pl in pls if pl is not None and pl['l'] in derived][0]['l']]['ty'] == 'usize':
+                            # arithmetic, a comparison, or a range / tuple built from the count (`&buf[n..]`)
+                            if rv['k'] in ('bin', 'agg') and any(pl is not None and pl['l'] in derived and not pl['pr'] and fn.locals[pl['l']]['ty'] == 'usize' for pl in pls):
                                 used = True
                             if st['p']['l'] not in derived:
                                 derived.add(st['p']['l'])
@@ -359,3 +360,19 @@ def complete_writes(ctx, rule='C02.complete-writes', traces=None):
     if f:
         res.append(f)
     return res
+
+
+def climb_atoms(ctx, fn, operand, callers, depth=0):
+    """atoms of the backward slice of `operand` in fn, continued through fn's parameters into the arguments of the call sites on the trace context
+    (callers = the context tuple of the trace node: ((caller fn, call block, callee), ...)): an event written in a small helper `write_at(file, offset, buf)` is
+    judged by where the caller's arguments come from"""
+    _, atoms = ctx.du(fn).slice_operand(operand)
+    out = set(atoms)
+    if not callers or depth > 4:
+        return out
+    cfn, cbb = callers[-1][0], callers[-1][1]
+    ct = cfn.term(cbb)
+    for a in atoms:
+        if a[0] == 'arg' and 1 <= a[1] <= len(ct['args']):
+            out |= climb_atoms(ctx, cfn, ct['args'][a[1] - 1], list(callers[:-1]), depth + 1)
+    return out
